@@ -29,7 +29,53 @@ def _comp_over(ex, e, g, st, it):
     items = _static_items(ex, it)
     if items is not None:
         return _unrolled(ex, e, g, st, items)
+    if isinstance(it, PSeq) or (isinstance(it, ZV) and it.kind == 'val'):
+        return _over_symbolic_seq(ex, e, g, st, it)
     raise Unsupported(f'comprehension over {it!r} (line {e.lineno} in {ex.spec.qual})')
+
+
+def _over_symbolic_seq(ex, e, g, st, it):
+    """[elt for x in <sequence of symbolic length>] without filter: the element expression is evaluated once for an
+    arbitrary index j; it must have exactly one normal outcome (its path conditions become a universally quantified
+    hypothesis) -- every exceptional outcome becomes "raises if some index takes that path"."""
+    if g.ifs: raise Unsupported('filtered comprehension over a symbolic-length sequence')
+    arr, n = seq_of(it, st)
+    j = fresh('j', IntSort())
+    base = st.copy(); base.assume(0 <= j, j < n)
+    npc = len(base.pc)
+    elem = it.elem if isinstance(it, PSeq) else 'val'
+    item = ZV('ref', Val.ref(arr[j]), elem[4:]) if elem.startswith('ref:') else ZV('val', arr[j])
+    outs = []
+    for s1, fl in ex.assign(base, g.target, item):
+        if isinstance(e, ast.DictComp):
+            res = [(s2, kv) for s2, kv in ex.evs([e.key, e.value], s1)]
+        else:
+            res = ex.ev(e.elt, s1)
+        normal = [(s2, v) for s2, v in res if not isinstance(v, Raise)]
+        raising = [(s2, v) for s2, v in res if isinstance(v, Raise)]
+        if len(normal) != 1: raise Unsupported(f'comprehension element with {len(normal)} normal outcomes (line {e.lineno})')
+        s_ok, v = normal[0]
+        conds = s_ok.pc[npc:]
+        ok = st.copy()
+        if conds: ok.assume(ForAll([j], Implies(And(0 <= j, j < n), And(*conds))))
+        if isinstance(e, ast.DictComp):
+            kk, vv = v
+            kq = fresh('k', StringSort()); jj = fresh('jj', IntSort())
+            keyj = ex.as_str(s_ok, kk); valj = to_val(vv, s_ok)
+            d = fresh('dc', DictS)
+            # d has exactly the keys key(j), each mapped to value(j) of some index with that key (last wins in Python;
+            # all indices with the same key give the same value here because value(j) is a function of key(j) in the forms used)
+            ok.assume(ForAll([j], Implies(And(0 <= j, j < n), d[keyj] == Opt.Some(valj))),
+                      ForAll([kq], Implies(Opt.is_Some(d[kq]), z3.Exists([j], And(0 <= j, j < n, keyj == kq)))))
+            outs.append((ok, PDict(d)))
+        else:
+            outs.append((ok, PSeq(z3.Lambda([j], to_val(v, s_ok)), n, 'val', isinstance(e, ast.ListComp))))
+        for s_bad, r in raising:
+            bconds = s_bad.pc[npc:]
+            bad = st.copy(); jb = fresh('jbad', IntSort())
+            bad.assume(0 <= jb, jb < n, *[z3.substitute(c, (j, jb)) for c in bconds]); bad.label(f'L{e.lineno}.comp:raises')
+            if ex.feasible(bad): outs.append((bad, r))
+    return outs
 
 
 def _unrolled(ex, e, g, st, items):
